@@ -17,4 +17,5 @@ var (
 	ErrAddressHasValidatorRecoveryToken       = sdkerrors.Register(ModuleName, 10, "address already has validator recovery token")
 	ErrNotEnoughRRTokenAmountForRotation      = sdkerrors.Register(ModuleName, 11, "not enough rr token amount for rotation")
 	ErrTargetAddressAlreadyHasRotationHistory = sdkerrors.Register(ModuleName, 12, "target address already has rotation history")
+	ErrTargetAddressHasIdentityRecords        = sdkerrors.Register(ModuleName, 13, "target address already has identity records")
 )
